@@ -73,7 +73,7 @@ def run(tier):
     shutil.rmtree(sc, ignore_errors=True)
     return c.finish(
         rule="complete product: every registered console route (from the running app) x 8 spellings x {GET,POST,PUT,DELETE} "
-             "x 11 credentials (no / garbage / expired session; manager, developer, visitor, unknown role, role sets, no "
+             "x 11 credentials (no / garbage / expired session; manager, developer, visitor, unknown role - '9' and seven look-alikes such as '00', '+1', ' 0' in turn -, role sets, no "
              "roles) executed on the real app with the real CheckLogin middleware; TLC evaluates LoginRequired, "
              "VisitorReadOnly, DeveloperLimits, Monotone, RoleSetIsUnion, VariantNotLooser on every observation; "
              "distinct non-trivial = request groups that reach a handler for at least one credential",
